@@ -30,6 +30,7 @@ impl AtomicU32 {
 
 pub struct Statistics {
     pub disk_usage: AtomicU64,
+    pub flush_count: AtomicU64,
 }
 impl Statistics {
     #[verifier::external_body]
@@ -267,6 +268,24 @@ impl<T> VecQueue<T> {
         VecQueue { it: v.into_iter() }
     }
 
+    // it.by_ref().take(n).collect::<Vec<_>>()   (rule R-iterq): the next min(n, len) elements, in order
+    #[verifier::external_body]
+    pub fn take_batch(&mut self, n: usize) -> (r: Vec<T>)
+        ensures
+            r@ == old(self).rest().take(if n <= old(self).rest().len() { n as int } else { old(self).rest().len() as int }),
+            final(self).rest() == old(self).rest().skip(r@.len() as int),
+    {
+        self.it.by_ref().take(n).collect()
+    }
+
+    // what is left of the iterator, in order
+    #[verifier::external_body]
+    pub fn into_rest(self) -> (r: Vec<T>)
+        ensures r@ == self.rest(),
+    {
+        self.it.collect()
+    }
+
     #[verifier::external_body]
     pub fn pop_front(&mut self) -> (r: Option<T>)
         ensures
@@ -292,15 +311,42 @@ impl PendingLock {
 
 pub struct RetirementQueue {
     pub pending: PendingLock,
+    pub released_sectors: AtomicU64,
+}
+
+// one shard of the write buffer (mutex + VecDeque inside)
+#[verifier::external_body]
+pub struct ShardBuffer { _p: () }
+impl ShardBuffer {
+    #[verifier::external_body]
+    pub fn drain_entries(&self) -> (v: Vec<WriteEntry>)
+        ensures all_bounded(v@), v@.len() <= 0x1000_0000,
+    {
+        unimplemented!()
+    }
+    // puts entries back at the FRONT of the shard in order; `failed` counts a retry against each
+    #[verifier::external_body]
+    pub fn requeue_entries(&self, entries: Vec<WriteEntry>, stats: &Statistics, failed: bool) { unimplemented!() }
 }
 
 pub struct WorkerContext {
+    pub worker_id: usize,
+    pub worker_count: usize,
+    pub sharded_buffers: Vec<ShardBuffer>,
     pub disk_io: DiskLock,
     pub free_space: FreeSpaceLock,
     pub stats: Statistics,
     pub retirement_queue: RetirementQueue,
     pub format_version: u32,
     pub fault_scope: usize,
+}
+
+// (a..b).step_by(s): next index of the worker's stride (step_by panics on 0)
+pub fn step_next(i: usize, step: usize) -> (r: usize)
+    requires step > 0,
+    ensures r as int == (if i as int + step as int <= usize::MAX as int { i as int + step as int } else { usize::MAX as int }), r > i || i == usize::MAX,
+{
+    i.saturating_add(step)
 }
 
 // test-only fault injection and crash points: any outcome / no effect
